@@ -71,7 +71,7 @@ impl FeatureNames {
             #[doc=#doc_inner]
             #[inline]
             #vis fn #ident_names_fn() -> #ident_names_struct {
-                use ::core::iter::Iterator;
+                use ::core::iter::Iterator as _;
                 #ident_names_struct{inner: Self::#ident_table_name.iter().copied()}
             }
         };
